@@ -175,6 +175,18 @@ class C01(L1Prop):
         for k in range(sizes(tier, 1, 4)):
             ops = ["raw", "ensure 1", "av 1 nil b:1", "av 1 latest:1 b:2", f"lockfor {5600 + 300 * k}", f"race 1 {2 + k % 2} 3"]
             out.append(Case(f"c01-lockrace-{k}", ops, {"only": "sqlite", "race": True, "raw": False}))
+        # a server restricted to a list of clients and restarted (same list / longer list / no list) in the middle of
+        # their histories: stale uploads after the restart are refused, the chains are walked end to end
+        for k in range(sizes(tier, 6, 30)):
+            al = ["1,2", "1", "2,1,3"][k % 3]
+            ops = [f"allow {al}"]
+            for c in (1, 2):
+                ops += [f"http POST av hyph={'nil' if (k + c) % 2 else 'fresh'} hyph={c} history b:1,{c}"]
+                ops += [f"http POST av hyph=latest:{c} hyph={c} history b:2,{i}" for i in range(1 + (k + c) % 3)]
+            for step, nxt in enumerate(([al], [al, "1,2,3"], ["none", al])[k % 3]):
+                ops += ([f"allow {nxt}"] if nxt != al else []) + ["reopen", "walk 1", f"http POST av hyph={['anc:1:1', 'nil', 'fresh'][(k + step) % 3]} hyph=1 history b:5,{step}",
+                        "walk 1", "http POST av hyph=latest:1 hyph=1 history b:6", "walk 1", "walk 2"]
+            out.append(Case(f"c01-allow-{k}", ops, {"http": True}, mode="http"))
         # a long-lived client: far more versions than any snapshot interval, walked end to end and asked about
         # old parents; and a client whose accumulated history is large (hundreds of megabytes in total)
         for k, n in enumerate([130, 260][:sizes(tier, 1, 2)]):
@@ -217,6 +229,8 @@ class C01(L1Prop):
                                  f"{kv['unacknowledged_on_chain']} versions on it were never acknowledged, walk {kv['walk']}")
         if case.meta.get("race"):
             return fails
+        if case.meta.get("http") and case.mode == "http":
+            trace = http_as_lib(trace)
         while i < len(trace):
             o, ri, rm = trace[i]
             op = Op(o)
@@ -1137,9 +1151,15 @@ class C09(L1Prop):
                 ops += ["http POST as hyph=latest:1 hyph=2 snapshot b:7,7", "http POST as hyph=anc:1:1 hyph=2 snapshot b:7,8", "http GET gcv hyph=latest:1 hyph=2 absent e",
                         "http GET gcv hyph=anc:1:1 hyph=2 absent e"]
             elif kind == 1:
-                # the other client's uploads break off after tens of megabytes, again and again
-                tot = 5 if tier != "thorough" else 24
-                ops += [f"http POST {'av' if j % 2 else 'as'} hyph=latest:2 hyph=2 {'history' if j % 2 else 'snapshot'} brk:47185920" for j in range(tot)]
+                # the other client's uploads break off part-way, again and again, in sizes from tens of megabytes down
+                # to kilobytes (whatever is accounted per upload and not given back adds up, to within a few kilobytes
+                # of any total below 384 MB — 1.5 GB in the thorough tier)
+                rep = 3 if tier != "thorough" else 12
+                j = 0
+                for sz in [64 << 20, 32 << 20, 16 << 20, 8 << 20, 4 << 20, 2 << 20, 1 << 20, 512 << 10, 256 << 10, 128 << 10, 64 << 10, 32 << 10, 16 << 10]:
+                    for _ in range(rep if k == 1 else 1):
+                        ops.append(f"http POST {'av' if j % 2 else 'as'} hyph=latest:2 hyph=2 {'history' if j % 2 else 'snapshot'} brk:{sz}"); j += 1
+                ops += ["http POST av hyph=latest:1 hyph=1 history z:131072:3", "http POST as hyph=latest:1 hyph=1 snapshot z:262144:4", "http GET snap - hyph=1 absent e"]
             elif kind == 2:
                 ops += ["http POST av hyph=latest:1 hyph=2 history b:2,3", "http POST as hyph=latest:2 hyph=2 snapshot b:7,9", "http POST as hyph=latest:1 hyph=2 snapshot b:7,9"]
             else:
